@@ -44,7 +44,8 @@ def gen_cfg(rng, prop, tier):
     cfg["odd_names"] = False
     menu = rng.choice((("HNode",), ("HAny",), ("HNode", "HAny", "HMix"), ("HLight",), ("HLightDict",),
                        ("HNodeBag",), ("HNodeNo",), ("HLightNo", "HLight"), ("HNodeEq",), ("PNode",), ("PAny",), ("PNode", "PAny"),
-                       ("HNode", "HSym"), ("HAny", "HSym"), ("PAny", "PSym"), ("HAny", "HNode", "HSymMix")))
+                       ("HNode", "HSym"), ("HAny", "HSym"), ("PAny", "PSym"), ("HAny", "HNode", "HSymMix"),
+                       ("HNodeUnhash",), ("HNodeUnhash", "HNode"), ("HLightBag",), ("HLightEq",), ("HMixProxy",)))
     cfg["menu"] = list(menu)
     cfg["family"] = FAMILY[menu[0]]
     cfg["classes"] = [rng.choice(menu) if i else menu[0] for i, _ in enumerate(cfg["classes"])]
